@@ -12,6 +12,7 @@ import (
 	"free5gclib/nas/nasConvert"
 	"free5gclib/ngap"
 	"free5gclib/ngap/ngapConvert"
+	"free5gclib/ngap/ngapType"
 	"free5gclib/openapi/models"
 	"free5gclib/util_3gpp"
 	stgutg "stgutgp"
@@ -27,7 +28,7 @@ import (
 // conversion helpers and the two hand-written extractors. Inputs are generated inside the goroutine from the actor's
 // own PRNG; generators of the harness that keep shared tables are serialised by c20RefMu (the monitor must not be the race).
 
-var c20ExtNames = []string{"ngap-any-message", "ngap-transfer-container", "nas-any-message", "ngap-builder", "identity-and-conversion", "extractors"}
+var c20ExtNames = []string{"ngap-any-message", "ngap-transfer-container", "nas-any-message", "ngap-builder", "identity-and-conversion", "extractors", "large-fragmented-value"}
 
 // c20Builders: the C13 builder table minus the two NG Setup builders (they WRITE the announced PLMN, which the
 // emulator does once before any UE exists - stated assumption of the check).
@@ -113,7 +114,7 @@ func c20OpExt(a *c20Actor, kind int, h hash.Hash) {
 		sp := c13Specs[a.builders[r.Intn(len(a.builders))]]
 		ba := &bArgs{r: r, amf: r.Int63n(1 << 40), ran: r.Int63n(1 << 32), psi: int64(r.Intn(256)), nas: rbytes(r, 1+r.Intn(80)),
 			ipv4: net.IP(rbytes(r, 4)).String(), plmn: rbytes(r, 3), gnbBits: 24, gnbID: rbytes(r, 3), gnbName: "gnb" + digits(r, 3),
-			tgtGNB: rbytes(r, 3), tgtCell: rbytes(r, 5), psis: []int64{int64(r.Intn(256)), int64(r.Intn(256))}}
+			tgtGNB: rbytes(r, 3), tgtCell: rbytes(r, 2), psis: []int64{int64(r.Intn(256)), int64(r.Intn(256))}}
 		_, b, err, _ := sp.build(ba)
 		fmt.Fprint(h, sp.name, err)
 		h.Write(b)
@@ -177,6 +178,17 @@ func c20OpExt(a *c20Actor, kind int, h hash.Hash) {
 			h.Write([]byte("wrong")) // differs from the sequential run only if the interference is schedule dependent; C12 owns the values
 		}
 		_ = bytes.Equal
+	case 6: // values of 16K octets and more (fragmented length determinants): whatever the codec keeps while it puts such a value together belongs to that one call
+		n := pick(r, 16384, 20000, 65536, 65537, 114688)
+		v := ngapType.NASPDU{Value: rbytes(r, n)}
+		b, err := aper.Marshal(v)
+		fmt.Fprint(h, n, err, len(b))
+		if err == nil {
+			var back ngapType.NASPDU
+			err = aper.Unmarshal(append([]byte(nil), b...), &back)
+			fmt.Fprint(h, err, len(back.Value))
+			h.Write(back.Value)
+		}
 	}
 	_ = tglib.NewRanUeContext
 }
